@@ -83,14 +83,17 @@ def golden_array(exe, spec, variant, stats):
     if dump != want:
         problems.append(('%s: the Lean decoder no longer reads the golden content file as recorded' % tag, dump[:1500]))
     snap = a.snapshot()
-    r = a.cmd('check', *lim)
+    # the standard-config variant runs the commands the way users do: WITH the start-up self test (the harness default
+    # skips it for speed); the self test must not leave anything behind that changes how the array is read
+    opts = [o for o in e2e.BASE_OPTS if o != '--test-skip-self'] if variant == 0 else None
+    r = a.cmd('check', *lim, opts=opts)
     if r.rc != 0:
         problems.append(('%s: check of the array written by the reference version fails (exit %d): %s' % (tag, r.rc, [t for t in r.tags if 'error' in t][:3]), r.out[-800:]))
     else:
         # lose as many data disks as there are parities (at most all but ... every disk), rebuild from golden parity
         lost = a.disks[:min(spec['nparity'], len(a.disks))]
         for d in lost: fx.wipe_disk(a, d)
-        f = a.cmd('fix', *lim)
+        f = a.cmd('fix', *lim, opts=opts)
         diffs = fx.compare_snapshot(a, snap)
         stats['rebuilds'] += 1
         if diffs or f.rc != 0:
@@ -142,7 +145,7 @@ def main(tier, seed):
     chk.distinct = stats['vectors']
     chk.extra.update({'programs': 3 + len(specs), 'disagreements_checked': chk.evaluations,
                       'explanation': 'programs = murmur3, spooky2, crc32c (2 variants) and %d golden arrays' % len(specs)})
-    chk.rule = ('digests of murmur3 and spooky2 for every length 0..1100 x 4 seeds and CRC-32C (table, SSE4.2 and chained) for every length 0..1100: current build = vendored vectors of the reference build = Lean executable model; %d golden arrays (both hash kinds, hash sizes 4/8/16, 1..6 parities, z-mode, split parity, content v2/v3, one array half way through a rehash with both hash kinds and seeds live) x 2 configuration line orders: Lean decode equals the recorded dump, check passes, min(np, nd) wiped disks are rebuilt from the golden parity byte for byte; generator tables re-proved against the definition' % len(specs))
+    chk.rule = ('digests of murmur3 and spooky2 for every length 0..1100 x 4 seeds and CRC-32C (table, SSE4.2 and chained) for every length 0..1100: current build = vendored vectors of the reference build = Lean executable model; %d golden arrays (both hash kinds, hash sizes 4/8/16, 1..6 parities, z-mode, split parity, content v2/v3, one array half way through a rehash with both hash kinds and seeds live) x 2 configuration line orders (one of them with the start-up self test enabled): Lean decode equals the recorded dump, check passes, min(np, nd) wiped disks are rebuilt from the golden parity byte for byte; generator tables re-proved against the definition' % len(specs))
     chk.samples = [dict(stats)]
     chk.corr['STABLE'] = dict(stats)
     chk.finish()
